@@ -420,7 +420,7 @@ func (r *instrReader) Seek(off int64, whence int) (int64, error) {
 func (r *instrReader) Close() error {
 	r.enter("RClose")
 	defer r.leave()
-	seq, _ := r.s.Log.begin("RClose", r.info.ID, r.info.File, 0, 0)
+	seq, act := r.s.Log.begin("RClose", r.info.ID, r.info.File, 0, 0)
 	r.s.hmu.Lock()
 	r.info.Closes++
 	if r.info.Closes > 1 {
@@ -430,6 +430,10 @@ func (r *instrReader) Close() error {
 	r.s.hmu.Unlock()
 	r.closed.Store(true)
 	err := r.inner.Close()
+	if act.Fail && err == nil {
+		// the handle is closed for real; the store reports a failure all the same
+		err = injErr("RClose", seq, act.Tag)
+	}
 	r.s.Log.end(seq, err, -1)
 	return err
 }
